@@ -124,19 +124,25 @@ type govRandom struct {
 	Length    int `json:"length"`
 }
 
-type govInput struct {
+// govGraph is one TLC state graph (abstract states, an edge cover by paths from the initial state).
+type govGraph struct {
+	Name   string            `json:"name"`
 	Cfg    govCfg            `json:"cfg"`
 	Ops    []govOp           `json:"ops"`
 	States []json.RawMessage `json:"states"` // mState each, decoded on use (the table is large)
 	MaxH   int64             `json:"max_h"`
 	Init   int               `json:"init"`
 	Paths  [][]govStep       `json:"paths"`
-	Random govRandom         `json:"random"`
-	RCfg   govCfg            `json:"rcfg"` // configuration of the random driver
-	Shards int               `json:"shards"`
 }
 
-func (in *govInput) state(i int) *mState {
+type govInput struct {
+	Graphs []govGraph `json:"graphs"`
+	Random govRandom  `json:"random"`
+	RCfg   govCfg     `json:"rcfg"` // configuration of the random driver
+	Shards int        `json:"shards"`
+}
+
+func (in *govGraph) state(i int) *mState {
 	var m mState
 	if err := json.Unmarshal(in.States[i], &m); err != nil {
 		panic(err)
@@ -1214,7 +1220,7 @@ func (r *reporter) violate(sig map[string]interface{}, replay interface{}, forma
 }
 
 type replayInfo struct {
-	Mode    string                 `json:"mode"`
+	Mode    string                 `json:"mode"` // "graph <name>" or "random"
 	World   map[string]interface{} `json:"world"`
 	History []string               `json:"history"` // "<block number>:<operation>" in execution order
 	Op      *govOp                 `json:"op,omitempty"`
@@ -1251,7 +1257,7 @@ func (s *sut) stateChecks(rep *reporter, mode string, o *observation, lastOp *go
 
 var layouts = []string{"one-bucket", "free", "two-buckets"}
 
-func runGraph(in *govInput, shard, nshards int, res *verifkit.Result, rep *reporter) {
+func runGraph(in *govGraph, shard, nshards int, res *verifkit.Result, rep *reporter) {
 	if int64(system.StakingDelay)%in.Cfg.Delay != 0 || system.StakingDelay != system.VotingDelay {
 		rep.violate(map[string]interface{}{"kind": "delay-constants"}, nil, "StakingDelay=%d and VotingDelay=%d cannot be mapped onto the model delay %d", system.StakingDelay, system.VotingDelay, in.Cfg.Delay)
 		return
@@ -1283,10 +1289,10 @@ func runGraph(in *govInput, shard, nshards int, res *verifkit.Result, rep *repor
 			// the initial state
 			curObs, err := s.observe(nil)
 			if err != nil {
-				rep.violate(map[string]interface{}{"kind": "read-error"}, s.replay("graph", nil, ""), "%v", err)
+				rep.violate(map[string]interface{}{"kind": "read-error"}, s.replay("graph "+in.Name, nil, ""), "%v", err)
 				return
 			} else if part, text := w.diff(in.state(cur), curObs, true); part != "" {
-				rep.violate(map[string]interface{}{"kind": "state-mismatch", "part": part, "op": "Init"}, s.replay("graph", nil, ""), "initial state: %s", text)
+				rep.violate(map[string]interface{}{"kind": "state-mismatch", "part": part, "op": "Init"}, s.replay("graph "+in.Name, nil, ""), "initial state: %s", text)
 				return
 			}
 			for si, step := range path {
@@ -1296,28 +1302,28 @@ func runGraph(in *govInput, shard, nshards int, res *verifkit.Result, rep *repor
 					for _, ri := range step.Refuse {
 						op := in.Ops[ri]
 						acc, _, err := s.exec(op)
-						res.Count(fmt.Sprintf("refuse:%d:%d", cur, ri))
+						res.Count(fmt.Sprintf("refuse:%s:%d:%d", in.Name, cur, ri))
 						g := guardOf(&in.Cfg, src, op)
 						if err != nil {
-							rep.violate(map[string]interface{}{"kind": "exec-error", "op": op.Name, "guard": g}, s.replay("graph", &op, ""), "%s: %v", opString(op), err)
+							rep.violate(map[string]interface{}{"kind": "exec-error", "op": op.Name, "guard": g}, s.replay("graph "+in.Name, &op, ""), "%s: %v", opString(op), err)
 							return
 						}
 						o, err := s.observe(curObs)
 						if err != nil {
-							rep.violate(map[string]interface{}{"kind": "read-error", "op": op.Name}, s.replay("graph", &op, ""), "%v", err)
+							rep.violate(map[string]interface{}{"kind": "read-error", "op": op.Name}, s.replay("graph "+in.Name, &op, ""), "%v", err)
 							return
 						}
 						if acc {
-							rep.violate(map[string]interface{}{"kind": "not-refused", "op": op.Name, "guard": g}, s.replay("graph", &op, ""),
+							rep.violate(map[string]interface{}{"kind": "not-refused", "op": op.Name, "guard": g}, s.replay("graph "+in.Name, &op, ""),
 								"%s was accepted at height %d although the model refuses it (%s)", opString(op), src.H, g)
 							return
 						}
 						if part, text := w.diff(src, o, false); part != "" {
-							rep.violate(map[string]interface{}{"kind": "refused-tx-changed-state", "op": op.Name, "part": part}, s.replay("graph", &op, ""),
+							rep.violate(map[string]interface{}{"kind": "refused-tx-changed-state", "op": op.Name, "part": part}, s.replay("graph "+in.Name, &op, ""),
 								"refused %s changed the state: %s", opString(op), text)
 							return
 						}
-						s.stateChecks(rep, "graph", o, &op)
+						s.stateChecks(rep, "graph "+in.Name, o, &op)
 						s.hist = s.hist[:len(s.hist)-1]
 					}
 				}
@@ -1329,7 +1335,7 @@ func runGraph(in *govInput, shard, nshards int, res *verifkit.Result, rep *repor
 				if step.Op < 0 {
 					root, err := s.nextBlock(hm.block(dst.H), step.Restart)
 					if err != nil {
-						rep.violate(map[string]interface{}{"kind": "exec-error", "op": "NextBlock"}, s.replay("graph", nil, ""), "block boundary: %v", err)
+						rep.violate(map[string]interface{}{"kind": "exec-error", "op": "NextBlock"}, s.replay("graph "+in.Name, nil, ""), "block boundary: %v", err)
 						return
 					}
 					boundary = true
@@ -1341,7 +1347,7 @@ func runGraph(in *govInput, shard, nshards int, res *verifkit.Result, rep *repor
 						if twin || rootTwin[hkey] {
 							sig["tie"] = "candidates-equal-in-id-bytes-7-and-up"
 						}
-						rep.violate(sig, s.replay("graph", nil, ""), "two executions of the same history end the block with different state roots: %s vs %x", prev, root)
+						rep.violate(sig, s.replay("graph "+in.Name, nil, ""), "two executions of the same history end the block with different state roots: %s vs %x", prev, root)
 					}
 					roots[hkey] = hex.EncodeToString(root)
 					rootTwin[hkey] = twin
@@ -1351,34 +1357,34 @@ func runGraph(in *govInput, shard, nshards int, res *verifkit.Result, rep *repor
 					opName = op.Name
 					acc, why, err := s.exec(op)
 					if err != nil {
-						rep.violate(map[string]interface{}{"kind": "exec-error", "op": op.Name}, s.replay("graph", &op, ""), "%s: %v", opString(op), err)
+						rep.violate(map[string]interface{}{"kind": "exec-error", "op": op.Name}, s.replay("graph "+in.Name, &op, ""), "%s: %v", opString(op), err)
 						return
 					}
 					if !acc {
-						rep.violate(map[string]interface{}{"kind": "refused-but-model-accepts", "op": op.Name}, s.replay("graph", &op, ""),
+						rep.violate(map[string]interface{}{"kind": "refused-but-model-accepts", "op": op.Name}, s.replay("graph "+in.Name, &op, ""),
 							"%s was refused (%s) at height %d although the model accepts it", opString(op), why, src.H)
 						return
 					}
 				}
-				res.Count(fmt.Sprintf("edge:%d:%d:%v:%s:%s", cur, step.Op, step.Restart, w.layout, hm.name))
+				res.Count(fmt.Sprintf("edge:%s:%d:%d:%v:%s:%s", in.Name, cur, step.Op, step.Restart, w.layout, hm.name))
 				o, err := s.observe(nil)
 				if err != nil {
-					rep.violate(map[string]interface{}{"kind": "read-error", "op": opName}, s.replay("graph", lastOp, ""), "%v", err)
+					rep.violate(map[string]interface{}{"kind": "read-error", "op": opName}, s.replay("graph "+in.Name, lastOp, ""), "%v", err)
 					return
 				}
 				if part, text := w.diff(dst, o, boundary); part != "" {
-					rep.violate(map[string]interface{}{"kind": "state-mismatch", "part": part, "op": opName}, s.replay("graph", lastOp, ""),
+					rep.violate(map[string]interface{}{"kind": "state-mismatch", "part": part, "op": opName}, s.replay("graph "+in.Name, lastOp, ""),
 						"after %s (path %d step %d): %s", s.hist[len(s.hist)-1], pi, si, text)
 					return
 				}
 				if part, text := w.selfConsistent(o); part != "" {
-					rep.violate(map[string]interface{}{"kind": "invariant", "part": part, "op": opName}, s.replay("graph", lastOp, ""), "after %s: %s", s.hist[len(s.hist)-1], text)
+					rep.violate(map[string]interface{}{"kind": "invariant", "part": part, "op": opName}, s.replay("graph "+in.Name, lastOp, ""), "after %s: %s", s.hist[len(s.hist)-1], text)
 					return
 				}
 				if w.twinTie(o.St.Tally["BP"]) {
 					twin = true
 				}
-				s.stateChecks(rep, "graph", o, lastOp)
+				s.stateChecks(rep, "graph "+in.Name, o, lastOp)
 				if pi == 0 && si < 3 {
 					res.Sample(map[string]interface{}{"history": append([]string(nil), s.hist...), "observed": o.St})
 				}
@@ -1635,7 +1641,9 @@ func TestVerifGovernance(t *testing.T) {
 		var shard, n int
 		fmt.Sscanf(sh, "%d/%d", &shard, &n)
 		var trace bytes.Buffer
-		runGraph(&in, shard, n, res, rep)
+		for gi := range in.Graphs {
+			runGraph(&in.Graphs[gi], shard, n, res, rep)
+		}
 		runRandom(&in, shard, n, res, rep, &trace)
 		if tp := os.Getenv("VERIF_TRACE"); tp != "" {
 			if err := os.WriteFile(tp, trace.Bytes(), 0o644); err != nil {
